@@ -446,7 +446,44 @@ def txgen_xin_json(k):
     return {"prev": x["prev"].hex(), "index": x["index"], "script": "ab", "sequence": 1, "witness": []}
 
 
+# ------------------------------------------------------------------ transactions that arrive as bytes
+
+
+def cases_parsed_empty(tier):
+    """serialisations with no inputs and / or no outputs in the extended (marker 00) layouts, per coin"""
+    one_in = "01" + "11" * 32 + "00000000" + "00" + "ffffffff"
+    one_out = "01" + "e803000000000000" + "0151"
+    for coin in ("BTC", "LTC", "XTN", "BCH"):
+        for flag in ("01", "08", "09", "03"):
+            for ins, outs in (("00", "00"), ("00", one_out), (one_in, "00")):
+                for tail in ("", "00", "0000"):
+                    yield {"coin": coin, "hex": "01000000" + "00" + flag + ins + outs + tail + "00000000"}
+        for ins, outs in (("00", "00"), ("00", one_out)):
+            yield {"coin": coin, "hex": "01000000" + ins + outs + "00000000"}
+
+
+def o_parsed_empty(case):
+    T = CLASSES[case["coin"]]
+    try:
+        tx = T.from_hex(case["hex"])
+    except Exception:       # noqa - whether these bytes parse at all is the wire-format property's business
+        return ["not-parsed"]
+    if tx.txs_in and tx.txs_out:
+        return ["parsed-with-inputs-and-outputs"]
+    try:
+        tx.check()
+    except ValidationFailureError:
+        return ["parsed-empty:rejected"]
+    _bad("check:accepts-malformed:no-inputs-or-outputs", "%s transaction parsed from %s has %d inputs and %d outputs and check() accepts it" % (
+        case["coin"], case["hex"], len(tx.txs_in), len(tx.txs_out)))
+
+
 SUBCHECKS = [
+    SubCheck("parsed_without_inputs_or_outputs", o_parsed_empty, cases=cases_parsed_empty, exhaustive=True, max_shards=2,
+             nontrivial=lambda c, l: "parsed-empty:rejected" in l,
+             rule="byte strings in the plain and the extended (marker 00, flag 01 / 03 / 08 / 09) layouts with no inputs and / or no "
+                  "outputs, read with from_hex by the BTC, LTC, XTN and BCH classes: whenever the class parses them into a transaction "
+                  "lacking inputs or outputs, check() rejects it; non-trivial = such a transaction was parsed"),
     SubCheck("check_tx", o_check, strategy=s_check, budget=(6000, 100000), nontrivial=nt_check,
              rule="boundary-directed transactions for BTC/LTC/BCH/BTG/GRS: values {0,1,MAX-1,MAX,MAX+1,2^63,2^64-1,-1}, totals equal to / "
                   "crossing MAX at a chosen output, no inputs / outputs, duplicate outpoints at chosen positions (and same hash with other "
